@@ -646,7 +646,8 @@ def class_subobjects_skips(P: Program) -> Tuple[Optional[Set[str]], str]:
     """literal names that class_subobjects skips; None if a skip condition is not a literal equality"""
     f = fn(P, 'yatiml.introspection:class_subobjects')
     skips: Set[str] = set()
-    loops = [n for n in f.walk() if isinstance(n, ast.For) and 'argspec.args' in norm(n.iter)]
+    loops = [n for n in f.walk() if isinstance(n, ast.For) and 'getfullargspec(' in f.alpha.text(n.iter)
+             and f.alpha.text(n.iter).rstrip(')').endswith('.args')]
     if not loops:
         raise AnalysisError('anchor missing: loop over argspec.args in class_subobjects')
     loop = loops[0]
